@@ -250,5 +250,23 @@ SUBCHECKS = [
     SubCheck("natural_order", o_names, strategy=name_cases, examples=(800, 5000), shards=(2, 6),
              rule="sorted(key=natural_key) == independent tokenising comparator; revlex = reversed key"),
 ]
+
+
+def _campaigns(tier):
+    import os
+
+    seed = int(os.environ.get("VERIF_SEED_EFFECTIVE", "1"))
+    for corpus in ("empty", "seeded"):
+        yield {"target": "expr", "runs": 6000, "corpus": corpus, "seed": seed, "max_len": 96, "timeout": 2400}
+
+
+def o_fuzz(spec):
+    from vlib.fuzz import run_campaign
+
+    return run_campaign(spec)
+
+
+SUBCHECKS.append(SubCheck("atheris_expr", o_fuzz, enumerate=_campaigns, shards=(1, 2), tiers=("thorough",), timeout=(600, 3000),
+                          rule="coverage-guided (Atheris/libFuzzer) campaigns, empty and seeded corpus: bytes -> grammar choices -> same value oracle"))
 SUBCHECKS[0].expected_classes = ["shape:" + s for s in ["add", "mul", "sub", "div", "pow", "sqrt", "sin", "cos", "exp", "tan"]]
 SUBCHECKS[1].expected_classes = ["construct:" + u for u in UNSUPPORTED]
